@@ -162,6 +162,65 @@ def run(ctx):
                        '%s:%d' % (rec['file'], fld['l']))
     ctx.floor('R22.3 summary structs covered', len(structs), 6)
 
+    # ---- R22.6 the reader keeps every record it could parse ---------------------------------------------
+    ctx.rule('R22.6', 'a reader stores every record it parsed: the insertion into the summary list is not conditional on a '
+                      'membership test (set/map insert/find/count) or on the values of the record being loaded')
+    from .common import paths
+    MEMBERSHIP = ('insert', 'emplace', 'find', 'count', 'contains')
+    SINK = ('push_back', 'emplace_back', 'insert', 'emplace', 'push_front')
+    nsinks = 0
+    seen_readers = set()
+    for name, wfn, rfn in pairs:
+        rcl = closure(F, [rfn], lambda g: is_repo(g) and any(p['t'].startswith(('const tinyxml2::XMLElement *', 'tinyxml2::XMLElement *')) for p in g['params']))
+        for f in rcl:
+            if F.key(f) in seen_readers:
+                continue
+            seen_readers.add(F.key(f))
+            b = F.body(f)
+            if b is None:
+                continue
+
+            def leaf_kind(n):
+                """classify a branch condition leaf: returns a description if it makes record acceptance depend on
+                earlier records or on record values, else None"""
+                for y in walk(n):
+                    if y.get('k') == 'CXXMemberCallExpr' and (y.get('fn') or '').rsplit('::', 1)[-1] in MEMBERSHIP and \
+                            any(t in (y.get('fn') or '') for t in ('std::set', 'std::map', 'std::unordered', 'std::multiset', 'std::multimap')):
+                        return 'membership test %s' % y['fn'].rsplit('::', 2)[-2] + '::' + y['fn'].rsplit('::', 1)[-1]
+                    if y.get('k') == 'MemberExpr' and y.get('dk') == 'Field' and any(y.get('n', '').startswith(st + '::') for st in structs):
+                        return 'value of record field %s' % y['n']
+                return None
+
+            def cond(n, truth):
+                k_ = leaf_kind(n)
+                return (('filter', k_, n.get('l')),) if k_ else ()
+
+            def observe(n):
+                if n.get('k') != 'CXXMemberCallExpr' or (n.get('fn') or '').rsplit('::', 1)[-1] not in SINK:
+                    return False
+                callee = n['c'][0]
+                obj = strip(callee['c'][0]) if callee.get('c') else None
+                while obj is not None and obj.get('k') == 'MemberExpr' and obj.get('arrow') and obj.get('c') and obj.get('dk') == 'Field' and False:
+                    obj = strip(obj['c'][0])
+                return obj is not None and obj.get('k') in ('MemberExpr', 'DeclRefExpr') and \
+                    any(t in (obj.get('t') or '') for t in ('std::list', 'std::vector', 'std::set', 'std::map'))
+
+            try:
+                res = paths.analyse(b['body'], cond=cond, observe=observe)
+            except AnalysisBroken:
+                continue
+            for i, st in res.at.items():
+                n = res.at_node[i]
+                filt = sorted(x for x in st if isinstance(x, tuple) and x[0] == 'filter')
+                nsinks += 1
+                idx = sum(1 for j in res.at if res.at_node[j]['l'] < n['l'])
+                ctx.ob('R22.6', 'keep:%s#%d' % (f['name'], idx), not filt,
+                       ('%s stores the parsed record unconditionally (line %s)' % (f['name'], n['l'])) if not filt else
+                       ('%s stores a parsed record only if %s (line %s) holds: records that the in-memory analysis sees are dropped '
+                        'when summaries are read back from the build dir' % (f['name'], filt[0][1], filt[0][2])),
+                       '%s:%s' % (f['file'], n['l']))
+    ctx.floor('R22.6 record insertions in readers', nsinks, 4)
+
     # ---- R22.4 drivers --------------------------------------------------------------------------------
     drivers = [f for f in F.find('CppCheck::analyseWholeProgram')]
     if len(drivers) != 2:
